@@ -198,19 +198,21 @@ pub struct TB(pub u64);
 impl Clone for TA { fn clone(&self) -> Self { unsafe { CA += 1; } TA(self.0) } }
 /// capacity of the harness vectors (Stack<16> of 8-byte elements): destination and source may both be full
 impl Clone for TB { fn clone(&self) -> Self { unsafe { CB += 1; } TB(self.0) } }
+pub fn mk_ta() -> TA { TA([7; 8]) }
+pub fn mk_tb() -> TB { TB(7) }
 /// After `dst.clone_from(&src)` the destination is a clone of the source in every respect a later operation
 /// depends on: length, element type, values, and the element clone function (a later `dst.clone()` runs the
-/// SOURCE type's `Clone`). Destination and source hold different element types of the same size (alignment 1 vs 8); the vectors have capacity 2,
+/// SOURCE type's `Clone`). Destination `D` and source `TB` hold different element types of the same size (alignment 1 vs 8) or the same type; the vectors have capacity 2,
 /// so a full destination receives a full source (the result fits: no capacity change on fixed storage).
-fn clone_from_h() {
+fn clone_from_h<D: Clone + 'static>(mk: fn() -> D) {
     unsafe { CA = 0; CB = 0; }
     let n: usize = kani::any();
     let m: usize = kani::any();
     kani::assume(n <= 2 && m <= 2);
     let x: [u64; 2] = kani::any();
-    let mut dst: AnyVec<dyn Cloneable, Stack<16>> = AnyVec::new::<TA>();
+    let mut dst: AnyVec<dyn Cloneable, Stack<16>> = AnyVec::new::<D>();
     let mut src: AnyVec<dyn Cloneable, Stack<16>> = AnyVec::new::<TB>();
-    { let mut t = dst.downcast_mut::<TA>().unwrap(); let mut i = 0; while i < 2 { if i < m { t.push(TA([7; 8])); } i += 1; } }
+    { let mut t = dst.downcast_mut::<D>().unwrap(); let mut i = 0; while i < 2 { if i < m { t.push(mk()); } i += 1; } }
     { let mut t = src.downcast_mut::<TB>().unwrap(); let mut i = 0; while i < 2 { if i < n { t.push(TB(x[i])); } i += 1; } }
     dst.clone_from(&src);
     kani::assert(dst.len() == n && dst.element_typeid() == core::any::TypeId::of::<TB>(), "clone_from: destination has the source's length and element type");
